@@ -118,3 +118,25 @@ def recover(modules) -> Dict[str, str]:
             elif isinstance(x, ast.keyword) and False:
                 pass
     return undone
+
+
+def unknown_overrides(program):
+    """`module.Class.method` for methods that override a method of a package base class and that the reference tree does not have
+    (dunder methods excluded). Needs the fingerprint table; returns [] without it."""
+    if not os.path.exists(TABLE):
+        return []
+    known = json.load(open(TABLE))
+    out = []
+    for cq, c in program.classes.items():
+        for mname, m in c.methods.items():
+            if mname.startswith("__") and mname.endswith("__"):
+                continue
+            q = f"{cq}.{mname}"
+            if q in known:
+                continue
+            for base in program.mro(cq)[1:]:
+                bc = program.classes.get(base)
+                if bc is not None and mname in bc.methods:
+                    out.append(q)
+                    break
+    return sorted(out)
